@@ -18,10 +18,11 @@
 //	free            nobody is held: close after a response (or server-side idle close), next call
 //	                after DelayMs, a later call after more than one poll period
 //	timely          the same with DelayMs beyond the poll period (the old sender has gone)
-//	forced-parked   the D14 schedule: the new sender is held in front of its inner select while the
-//	                old sender takes the request, fails, requeues and closes
-//	forced-resend   the new sender is held at its loop top instead: it re-sends the request, the
-//	                healthy connection stays marked closed
+//	forced-parked   the D14 schedule: the old sender is held in front of its inner select (it has not
+//	                polled connDone since the close), the new sender in front of its own; the old one
+//	                is released first and finds the request of the call issued after the close
+//	forced-resend   the new sender is held at its loop top instead: it finds the request in
+//	                sendFailQueue and re-sends it, the healthy connection stays marked closed
 //	forced-late-recv  client idle close; the old receiver is held in front of its close() until the
 //	                next call has dialled a new connection
 //	notify          the server sends the close notification; the harness does what
@@ -880,6 +881,15 @@ func oracle(o *outcome) []finding {
 	for _, p := range o.probes {
 		if p.Label == "end" && o.sc.Kind != "unobserved" && (p.P.SendQ > 0 || p.P.FailQ > 0) {
 			add("C11:request-parked:end", fmt.Sprintf("at the end sendQ=%d failQ=%d", p.P.SendQ, p.P.FailQ))
+		}
+	}
+	// O6: the client notices a server-side close (its receiver reads EOF and runs close) — otherwise
+	// the next call is written into the dead connection
+	if o.sc.Kind != "unobserved" && o.sc.Kind != "notify" {
+		for i, ob := range o.observed {
+			if !ob {
+				add("C11:close-not-noticed:recv", fmt.Sprintf("close %d: %v after the connection was closed the client still does not treat it as closed (isClosed=false)", i+1, observeWait))
+			}
 		}
 	}
 	if o.hang != "" {
